@@ -116,7 +116,7 @@ QNAME_BODIES = ['q', 'my col', 'select', 'a;b', 'a--b', 'x/*y', 'a.b', 'T 1',
                 'Order', 'from', 'é', 'x y z', '(p)', 'end', 'a,b']
 # double-quoted only: a doubled quote inside the name
 DQ_ONLY_BODIES = ['a""b', 'say ""hi""', '""x']
-COMMENT_BODIES = ['c', 'note', 'x;y', 'select 1;', '*', 'a * b', 'todo: fix',
+COMMENT_BODIES = ['c', 'note', 'x\n\n\ny', 'blank lines:\n\n\n\nend', 'x;y', 'select 1;', '*', 'a * b', 'todo: fix',
                   'end', 'begin', '(', ')', 'from t', '--', 'é', '', ' pad ',
                   'where x = 1', 'a, b']
 
@@ -156,6 +156,7 @@ class Config:
         self.placeholders = True
         self.returning = True
         self.wide_lists = True
+        self.tzcast = True
         for k, v in kw.items():
             if not hasattr(self, k):
                 raise TypeError(k)
@@ -342,6 +343,15 @@ class Gen:
             l = self.emit('name', rng.choice(TYPE_POOL), 'none')
             self.s.features.add('cast')
             return f, l, 'cast'
+        if 0.998 <= x and cfg.tzcast:
+            # col AT TIME ZONE 'zone' : one keyword token holding a literal
+            f, l, _, _ = self.colref(gap)
+            zone = rng.choice(["'UTC'", "'America/Port  of  Spain'",
+                               "'Europe/Berlin'", "'a\tb'"])
+            l = self.emit('kw', 'AT TIME ZONE ' + zone, 'req',
+                          ['AT', 'TIME', 'ZONE', zone])
+            self.s.features.add('tzcast')
+            return f, l, 'tz'
         if x < 0.97 and cfg.dollar:
             i = self.dollar(gap)
             self.s.features.add('dollar')
@@ -431,7 +441,7 @@ class Gen:
                 n = 1
             elif rng.random() < 0.3:
                 n = rng.choice([1, 1, 2, 3])
-        pure = kind not in ('case', 'dollar', 'neg', 'null', 'bool')
+        pure = kind not in ('case', 'dollar', 'neg', 'null', 'bool', 'tz')
         last_kind = kind
         for _ in range(n):
             op = rng.choice(['+', '-', '*', '/', '||', '%'])
@@ -448,7 +458,7 @@ class Gen:
                 # '+-x', '+.5': keep a blank after the operator
                 self.s.toks[n_before].gap = 'req'
             pure = pure and k2 not in ('case', 'dollar', 'neg', 'null',
-                                       'bool')
+                                       'bool', 'tz')
             # an operand the operator grouping does not accept (CASE,
             # dollar-quoted literal) leaves the expression ungrouped
             kind = 'operation' if pure else 'operation-x'
@@ -646,14 +656,17 @@ class Gen:
         else:
             n = 1 if scalar and rng.random() < 0.6 else rng.choice(
                 [1, 1, 2, 2, 3, 4])
+            item_depth = depth
             if top and cfg.wide_lists and rng.random() < 0.012:
                 n = rng.choice([90, 120, 260])     # size thresholds
-                depth = 0
+                item_depth = 0
+                depth = max(depth, 2)              # FROM may hold a subquery
             items = []
             for k in range(n):
                 if k:
                     self.punct(',', 'opt')
-                items.append(self.select_item(depth, 'select%d' % min(k, 1)
+                items.append(self.select_item(item_depth,
+                                              'select%d' % min(k, 1)
                                               if n > 1 else 'select-single'))
             if n > 1:
                 self.s.lists.append(('select', items))
@@ -877,7 +890,12 @@ class Gen:
         self.kw('TABLE')
         self.colref(ctx='ddl')
         self.kw('AS')
-        self.select_core(max(depth, 1), top=True)
+        if self.rng.random() < 0.3:
+            o = self.open_paren('req')
+            self.select_core(max(depth, 1), top=True)
+            self.close_paren(o)
+        else:
+            self.select_core(max(depth, 1), top=True)
 
     def create_index(self, depth):
         self.kw('CREATE', 'opt')
@@ -1114,6 +1132,8 @@ class Layout:
         out = []
         for w in words:
             mode = self.kwcase
+            if w.startswith("'"):
+                mode = 'asis'          # a literal inside a keyword token
             if mode == 'mixed':
                 mode = rng.choice(['upper', 'lower', 'random', 'cap'])
             if mode == 'upper':
